@@ -82,4 +82,4 @@ def replay(path):
 MANIFEST = dict(engine='api-seq + child processes + network of real binaries', level='fault_enumeration',
   technique='exhaustive enumeration of fault/operation sequences: (1) depth 4/5 against a real single-node network in a child process that is SIGKILLed and restarted, (2) depth 4/5 on a brand-new network (first session/config, snapshot, kill), (3) depth 2/3 against a three-node network of real robustirc binaries (SIGKILL leader/follower/all, restart, forced snapshots); oracle on the streams served by the real GET handler of every live node after every operation',
   text='Every sequence of posts, retries, forced snapshots, SIGKILL+restart, graceful restart and post-then-SIGKILL up to the depth bound is executed against real raft + real stores + real handlers in a child process; every sequence of leader/follower/all-node SIGKILLs, restarts, snapshots, posts and retries up to the bound is executed against three real binaries on loopback. After every operation every session reads its complete stream (from every live node): acknowledged messages exactly once and in post order, unacknowledged at most once, the same sequence on all nodes, and the stream after a fault must extend the stream served before it.',
-  note='In the three-node tier the fault sequences are enumerated, the timing inside an operation (where in an election or replication a kill lands) is not; raft consensus trusted; waits that exceed their bound make the run inconclusive (exhaustive:false), never a violation.')
+  note='In the three-node tier the fault sequences are enumerated, the timing inside an operation (where in an election or replication a kill lands) is not; raft consensus trusted; waits that exceed their bound make the run inconclusive (exhaustive:false), never a violation. Fresh-network tier also with a SIGKILL between FSM.Snapshot and Persist; the single-node histories contain entries whose effect depends on the time between entries (SVSHOLD of 1 ms).')
